@@ -16,12 +16,13 @@ const char * vf_harness_name = "c13_index";
 const char * vf_harness_name = "c04_mirror";
 #endif
 
-struct Sub {std::string pat; int filterKind; int filterArg; ConstQueryFilterRef filter;};   // filterKind 0 = none
+struct Sub {std::string pat; int filterKind; int filterArg; ConstQueryFilterRef filter; bool settled; Sub() : filterKind(0), filterArg(0), settled(false) {}};   // settled: was in force at the last quiescent point;   // filterKind 0 = none
 struct CState
 {
    std::map<std::string, std::string> mirror;                       // path -> flattened payload
    std::map<std::string, std::vector<std::string> > idx;            // path -> replayed index
    std::set<std::string> armed;                                     // paths whose replay started from a 'c' entry
+   std::set<std::string> noBirth;                                   // paths reported REMOVED since the last quiescent point: index entries that follow may belong to a node this client stopped watching in mid-life
    std::vector<Sub> subs;
    std::set<std::string> dontCare;                                  // paths this client need not be right about (quiet subscribe, known finding F16)
    std::set<std::string> owed;                                      // indexed nodes selected by an explicit GETDATA this client just sent (alone, at a quiescent point): the reply must carry their index snapshot
@@ -53,6 +54,7 @@ static bool FilterOK(const Sub & s, const ConstMessageRef & payload, const DataN
 static bool IsQuietTouched(const std::string & path) {for (size_t i=0; i<g_quietPrefixes.size(); i++) {const std::string & q = g_quietPrefixes[i]; if ((path == q)||((path.size() > q.size())&&(path.compare(0, q.size(), q) == 0)&&(path[q.size()] == '/'))) return true;} return false;}
 static bool Under(const std::string & path, const std::string & root) {return (path == root)||((path.size() > root.size())&&(path.compare(0, root.size(), root) == 0)&&(path[root.size()] == '/'));}
 
+static std::set<std::string> g_lastTreePaths; static uint64_t g_armedFromBirth = 0, g_armedWhileEmpty = 0; static bool g_copies = false, g_copyJudged = false; static std::set<std::string> g_copyDests;
 static void Apply(int ci, const Message & m)
 {
    CState & c = g_cs[ci];
@@ -66,7 +68,7 @@ static void Apply(int ci, const Message & m)
    }
    if (m.what == PR_RESULT_DATAITEMS)
    {
-      const String * r; for (uint32 k=0; m.FindString(PR_NAME_REMOVED_DATAITEMS, k, &r).IsOK(); k++) {c.mirror.erase(r->Cstr()); c.idx.erase(r->Cstr()); c.armed.erase(r->Cstr());}
+      const String * r; for (uint32 k=0; m.FindString(PR_NAME_REMOVED_DATAITEMS, k, &r).IsOK(); k++) {c.mirror.erase(r->Cstr()); c.idx.erase(r->Cstr()); c.armed.erase(r->Cstr()); c.noBirth.insert(r->Cstr());}
       for (MessageFieldNameIterator it = m.GetFieldNameIterator(B_MESSAGE_TYPE); it.HasData(); it++) {ConstMessageRef d; for (uint32 k=0; m.FindMessage(it.GetFieldName(), k, d).IsOK(); k++) c.mirror[it.GetFieldName()()] = Flat(*d());}
    }
    else if (m.what == PR_RESULT_INDEXUPDATED)
@@ -79,6 +81,12 @@ static void Apply(int ci, const Message & m)
          {
             const char op = (*s)[0];
             if (op == INDEX_OP_CLEARED) {v.clear(); c.armed.insert(path); continue;}
+#ifdef VF_C13
+            // a node that did not exist at the last quiescent point, under a subscription that was already in force then: the client has been told about the node's whole life,
+            // so its replay starts from the empty index the node was born with
+            if ((op == INDEX_OP_ENTRYINSERTED)&&(c.armed.count(path) == 0)&&(g_lastTreePaths.count(path) == 0)&&(c.noBirth.count(path) == 0)&&(Under(path, g_roots[ci]) == false))
+               for (size_t q=0; q<c.subs.size(); q++) if ((c.subs[q].settled)&&(PathMatch(Absolute(c.subs[q].pat), path))) {v.clear(); c.armed.insert(path); g_armedFromBirth++; break;}
+#endif
             if (c.armed.count(path) == 0) continue;       // a client that was never given the snapshot cannot replay: entries for unarmed indices are not judged
             if ((IsQuietTouched(path))||(c.dontCare.count(path))||(Under(path, g_roots[ci]))) continue;     // own-session nodes are not compared (whether own changes are echoed is not promised)
             const int colon = s->IndexOf(':'); if (colon < 0) vf::Fail("malformed index update entry [%s]", s->Cstr());
@@ -161,12 +169,23 @@ static void Check(World & w, const char * when)
          if ((e == false)&&(h)) vf::Fail("(%s) client %zu (%s): its mirror holds %s, which %s: EXTRA: history [%s]", when, i, root.c_str(), path.c_str(), tree.count(path) ? "no longer matches its subscriptions" : "no longer exists on the server", g_log.c_str());
          if ((e)&&(h)&&(expect[path] != c.mirror[path])) vf::Fail("(%s) client %zu (%s): its mirror of %s is STALE: history [%s]", when, i, root.c_str(), path.c_str(), g_log.c_str());
       }
+#ifdef VF_C13
+      // a node whose index is empty (or absent) at this quiescent point, under one of the client's subscriptions: whatever happens to that index from now on is reported to the
+      // client entry by entry, so its replay starts here from the empty index
+      for (std::map<std::string, NodeInfo>::iterator it = tree.begin(); it != tree.end(); ++it)
+      {
+         const std::string & path = it->first; if ((it->second.index.size())||(c.armed.count(path))||(path.size() <= 1)||(Under(path, root))||(SplitPath(path).size() < 3)||(IsQuietTouched(path))||(c.dontCare.count(path))) continue;
+         for (size_t s=0; s<c.subs.size(); s++) if (PathMatch(Absolute(c.subs[s].pat), path)) {c.armed.insert(path); c.idx[path].clear(); g_armedWhileEmpty++; break;}
+      }
+      for (size_t s=0; s<c.subs.size(); s++) c.subs[s].settled = true;
+      c.noBirth.clear();
+#endif
       // C13: every armed replay equals the server's index
       for (std::set<std::string>::iterator it = c.armed.begin(); it != c.armed.end(); ++it)
       {
          const std::string & path = *it; if ((IsQuietTouched(path))||(c.dontCare.count(path))||(Under(path, root))) continue;
          std::map<std::string, NodeInfo>::iterator tn = tree.find(path); if (tn == tree.end()) continue;     // node gone: the REMOVED notice disarms (checked by the mirror comparison)
-         g_st.comparedIndices++;
+         g_st.comparedIndices++; if ((tn->second.index.size())&&(g_copyDests.count(path))) g_copyJudged = true;
          if (c.idx[path] != tn->second.index)
          {
             std::string a, b; for (size_t k=0; k<c.idx[path].size(); k++) a += c.idx[path][k]+" "; for (size_t k=0; k<tn->second.index.size(); k++) b += tn->second.index[k]+" ";
@@ -176,6 +195,7 @@ static void Check(World & w, const char * when)
    }
 }
 
+static void RememberTree(World & w) {g_lastTreePaths.clear(); HSession * any = w.AnySession(); if (any == NULL) return; std::map<std::string, NodeInfo> tree; WalkTree(any->Root(), tree); for (std::map<std::string, NodeInfo>::iterator it = tree.begin(); it != tree.end(); ++it) g_lastTreePaths.insert(it->first);}
 static const char * const REL[] = {"a", "b", "ab", "a/x", "a/y", "b/x", "a/x/p", "ab/a"};
 static const char * const RMP[] = {"a", "b", "*", "a/*", "*/x", "a/x", "*/*", "a/x/p", "a*", "?", "(a|b)", "a*/*"};
 static const char * const SUBTAIL[] = {"a", "*", "a/*", "*/x", "b", "*/*", "*/*/*", "a*", "(a|ab)", "?", "a/x", "ab/*"};
@@ -198,7 +218,7 @@ static MessageRef GenCommand(World & w, int who, vf::BS & bs, int depth, bool & 
 {
    Client & cl = *w.c[who]; CState & cs = g_cs[who]; char buf[600];
 #ifdef VF_C13
-   const uint8_t kind = "\0\0\1\2\2\3\5\6\6\6\7\7"[bs.u8()%12];
+   const uint8_t kb = bs.u8(); const uint8_t kind = (kb >= 232) ? 8 : (uint8_t)"\0\0\1\2\2\3\5\6\6\6\7\7"[kb%12];
 #else
    const uint8_t kind = "\0\0\0\1\1\2\2\2\3\4\5\6"[bs.u8()%12];
 #endif
@@ -330,6 +350,17 @@ static MessageRef GenCommand(World & w, int who, vf::BS & bs, int depth, bool & 
          snprintf(buf, sizeof(buf), "c%d INSERTORDEREDDATA under %s%s", who, parent, l.c_str()); Log(buf);
          return m;
       }
+#ifdef VF_C13
+      case 8:   // the session copies one of its subtrees (ordered index included) to a place where nothing is yet: clone, or save to a Message and restore
+      {
+         static const char * const DST[] = {"c", "d", "e/k", "c/k"}; MessageRef m = GetMessageFromPool(HSession::CMD_COPY_SUBTREE); const uint8_t cb = bs.u8();
+         const char * src = (cb&1) ? "a" : "b"; const char * dst = DST[(cb>>1)%4]; const bool restore = ((cb>>3)&1) != 0, indexed = ((cb>>4)%4 == 0);
+         (void) m()->AddString("src", src); (void) m()->AddString("dst", dst); if (restore) (void) m()->AddBool("restore", true); if (indexed) (void) m()->AddBool("indexed", true);
+         snprintf(buf, sizeof(buf), "c%d %s subtree %s -> %s%s", who, restore ? "SAVES AND RESTORES" : "CLONES", src, dst, indexed ? " (added to the index of its parent)" : ""); Log(buf);
+         g_copies = true; g_copyDests.insert(cl.root+"/"+dst);
+         return m;
+      }
+#endif
       default:  // REORDERDATA
       {
          MessageRef m = GetMessageFromPool(PR_COMMAND_REORDERDATA); static const char * const KIDS[] = {"a/I0", "a/I1", "a/I2", "b/I0", "b/I1", "a/x", "a/*", "*/I1", "a/y"}; static const char * const BEFORE[] = {"I0", "I1", "I2", "", "zzz", "x"};
@@ -346,7 +377,7 @@ extern "C" int vf_run_case(const uint8_t * data, size_t size)
    static CompleteSetupSystem * css = NULL; if (css == NULL) {css = new CompleteSetupSystem; SetConsoleLogLevel(MUSCLE_LOG_NONE);}
    if (size < 4) return 0;
    vf::BS bs(data, size);
-   g_log.clear(); g_wantLog = true; g_quietPrefixes.clear(); g_st = Stats();
+   g_log.clear(); g_wantLog = true; g_quietPrefixes.clear(); g_st = Stats(); g_lastTreePaths.clear(); g_armedFromBirth = g_armedWhileEmpty = 0; g_copies = g_copyJudged = false; g_copyDests.clear();
    const int NC = 3+(bs.u8()%2);
    World w; w.Start(NC); g_cs.clear(); g_cs.resize(NC);
    w.onMessage = [](int ci, const Message & m){Apply(ci, m);};
@@ -359,7 +390,7 @@ extern "C" int vf_run_case(const uint8_t * data, size_t size)
       const int who = bs.u8()%NC; Client & cl = *w.c[who];
       if (cl.connected == false)
       {
-         w.Connect(who, HOSTS[bs.u8()%2]); g_cs[who] = CState(); g_roots[who] = cl.root; Log("c"+std::to_string(who)+" RECONNECT as "+cl.root); w.Pump(); Check(w, "after reconnect");
+         w.Connect(who, HOSTS[bs.u8()%2]); g_cs[who] = CState(); g_roots[who] = cl.root; Log("c"+std::to_string(who)+" RECONNECT as "+cl.root); w.Pump(); Check(w, "after reconnect"); RememberTree(w);
          h = vf::Hash64(data+p0, bs.pos-p0, h); continue;
       }
       const uint8_t x = bs.u8();
@@ -369,7 +400,7 @@ extern "C" int vf_run_case(const uint8_t * data, size_t size)
          bool othersSubscribed = false; for (int j=0; j<NC; j++) if ((j != who)&&(w.c[j]->connected)&&(g_cs[j].subs.size())) othersSubscribed = true;
          if (othersSubscribed) g_st.departureWhileSubscribed = true;
          if (x&16) {Log("c"+std::to_string(who)+" DISCONNECT"); w.Disconnect(who);} else {const uint32 k = bs.u8(); Log("c"+std::to_string(who)+" CUT after "+std::to_string(k)+" bytes"); (void) w.Cut(who, k);}
-         w.Pump(); Check(w, "after departure");
+         w.Pump(); Check(w, "after departure"); RememberTree(w);
          h = vf::Hash64(data+p0, bs.pos-p0, h); continue;
       }
       bool pumpBefore = false; std::vector<std::function<void()> > afterSend;
@@ -377,22 +408,23 @@ extern "C" int vf_run_case(const uint8_t * data, size_t size)
       MessageRef m = GenCommand(w, who, bs, 0, pumpBefore, afterSend);
       if (m())
       {
-         if (pumpBefore) {std::vector<Sub> subsAfter = g_cs[who].subs; g_cs[who].subs = subsBefore; w.Pump(); Check(w, "before a quiet subscribe / filter change"); g_cs[who].subs = subsAfter;}
+         if (pumpBefore) {std::vector<Sub> subsAfter = g_cs[who].subs; g_cs[who].subs = subsBefore; w.Pump(); Check(w, "before a quiet subscribe / filter change"); RememberTree(w); g_cs[who].subs = subsAfter;}
          if (vf::Verbose()) fprintf(stderr, "     >>> c%d sends %s\n", who, m()->ToString(4)());
          if (w.Send(who, m).IsError()) vf::Fail("AddOutgoingMessage failed");
          for (size_t i=0; i<afterSend.size(); i++) afterSend[i]();
-         if (pumpBefore) {w.Pump(); Check(w, "after a quiet subscribe / filter change");}
+         if (pumpBefore) {w.Pump(); Check(w, "after a quiet subscribe / filter change"); RememberTree(w);}
       }
       (void) savedLog;
       h = vf::Hash64(data+p0, bs.pos-p0, h);
-      if (bs.u8()%3) {Log("--pump"); w.Pump(); Check(w, "mid-history");}
+      if (bs.u8()%3) {Log("--pump"); w.Pump(); Check(w, "mid-history"); RememberTree(w);}
    }
-   w.Pump(); Check(w, "end of history");
+   w.Pump(); Check(w, "end of history"); RememberTree(w);
    w.Stop();
 
    vf::Count("steps", (uint64_t)steps); vf::Count("quiescent_checks", g_st.checks); vf::Count("mirror_nodes_compared", g_st.comparedNodes); vf::Count("index_replays_compared", g_st.comparedIndices); vf::Count("dont_care_skips", g_st.dontCareSkips);
    if (g_st.setThenRemoveInBatch) vf::Count("case_set_then_remove_in_one_batch"); if (g_st.filterChange) vf::Count("case_filter_change_on_existing_subscription"); if (g_st.departureWhileSubscribed) vf::Count("case_departure_while_others_subscribed");
    if (g_st.reorderAfterInserts) vf::Count("case_with_reorder"); if (g_st.comparedIndices) vf::Count("case_with_armed_index_replay_compared"); if (g_st.requestedSnapshots) vf::Count("case_with_requested_index_snapshot_judged");
+   if (g_armedFromBirth) vf::Count("case_index_replayed_from_the_birth_of_its_node"); if (g_armedWhileEmpty) vf::Count("case_index_replayed_from_an_empty_index_at_a_quiescent_point"); if (g_copies) vf::Count("case_with_subtree_clone_or_restore"); if (g_copyJudged) vf::Count("case_index_of_a_cloned_or_restored_node_judged");
 #ifdef VF_C13
    const bool nontrivial = (g_st.comparedIndices >= 1)&&((g_st.reorderAfterInserts)||(g_st.indexedRemoval));
 #else
